@@ -311,6 +311,22 @@ func run(prop string, spec *PropSpec, tier, repo, verif, onlyRule, replayKey str
 		}
 	}
 	if onlyRule == "" && replayKey == "" {
+		// an open finding of this property that no obligation reproduced: either it
+		// was repaired (move it to `fixed`) or the rule has stopped seeing it
+		hit := map[string]bool{}
+		for _, k := range knownHit {
+			hit[baseKey(k)] = true
+		}
+		for i := range known.Open {
+			e := &known.Open[i]
+			if e.Property != prop || hit[baseKey(e.Key)] {
+				continue
+			}
+			if strings.Contains(e.Key, "@") && tier != "thorough" {
+				continue // only observed in a build configuration of the thorough tier
+			}
+			fmt.Printf("NOTE: open finding %s of %s was not observed in this run: repaired, or the rule no longer sees it\n", e.Key, prop)
+		}
 		for _, u := range known.Undecided {
 			if u.Property == prop {
 				fmt.Printf("KNOWN-FINDING: property=%s (no rule decides this one; demo %s) %s\n", prop, u.Demo, u.What)
